@@ -8,6 +8,7 @@
   which every builder state reachable from a duplicate-free `Env` satisfies — the namespace id the
   builder resolves a prefix to names exactly the URI string scoping gives.
 -/
+import XotModel.Lemmas.ParseQName
 import XotModel.Lemmas.ParseSpellStart
 
 namespace XotModel
@@ -322,9 +323,10 @@ theorem openElement_scopeOk {b b' : Builder} (h : ScopeOk b) (hr : b.openElement
         · exact h.stack d hd
 
 theorem step_scopeOk {b b' : Builder} (t : Token) (h : ScopeOk b) (hr : b.step t = .ok b') : ScopeOk b' := by
+  replace hr := Builder.step_ok_core hr
   cases t with
   | «attribute» pfx loc value sp =>
-    simp only [Builder.step] at hr
+    simp only [Builder.stepCore] at hr
     split at hr
     · exact prefix_scopeOk h _ _ _ hr
     · split at hr
@@ -344,19 +346,19 @@ theorem step_scopeOk {b b' : Builder} (t : Token) (h : ScopeOk b) (hr : b.step t
               subst he
               exact h.eb eb heb
   | text t =>
-    simp only [Builder.step, Builder.text] at hr
+    simp only [Builder.stepCore, Builder.text] at hr
     split at hr
     · cases hr
     · simp only [Step.ok.injEq] at hr; subst hr
       refine scopeOk_of_same h ?_ ?_ ?_ ?_ <;> (unfold Builder.addText; split <;> rfl)
   | cdata t sp =>
-    simp only [Builder.step, Builder.cdata] at hr
+    simp only [Builder.stepCore, Builder.cdata] at hr
     split at hr
     · simp only [Step.ok.injEq] at hr; subst hr; exact h
     · simp only [Step.ok.injEq] at hr; subst hr
       refine scopeOk_of_same h ?_ ?_ ?_ ?_ <;> (unfold Builder.addText; split <;> rfl)
   | elementStart pfx loc sp =>
-    simp only [Builder.step, Builder.element, Step.ok.injEq] at hr
+    simp only [Builder.stepCore, Builder.element, Step.ok.injEq] at hr
     subst hr
     refine ⟨h.pfxNodup, h.nsNodup, h.stack, fun e he => ?_⟩
     simp only [Option.some.injEq] at he
@@ -367,7 +369,7 @@ theorem step_scopeOk {b b' : Builder} (t : Token) (h : ScopeOk b) (hr : b.step t
     cases e with
     | «open» => exact openElement_scopeOk h hr
     | close pfx loc =>
-      simp only [Builder.step] at hr
+      simp only [Builder.stepCore] at hr
       unfold Builder.closeElement at hr
       cases hn : elementNameId b.env b.nsStack pfx.text loc.text pfx.span with
       | panic => rw [hn] at hr; cases hr
@@ -390,7 +392,7 @@ theorem step_scopeOk {b b' : Builder} (t : Token) (h : ScopeOk b) (hr : b.step t
             refine h.of_pfxGrows (by rw [he]; exact hg) (by rw [hs]; exact h.stack)
               (fun e hee => h.eb e (by rw [hb] at hee; exact hee))
     | empty =>
-      simp only [Builder.step] at hr
+      simp only [Builder.stepCore] at hr
       cases hb : b.openElement with
       | ok b1 =>
         rw [hb] at hr
@@ -410,25 +412,25 @@ theorem step_scopeOk {b b' : Builder} (t : Token) (h : ScopeOk b) (hr : b.step t
       | err e env => rw [hb] at hr; cases hr
       | panic => rw [hb] at hr; cases hr
   | comment t sp =>
-    simp only [Builder.step, Builder.comment, Step.ok.injEq] at hr
+    simp only [Builder.stepCore, Builder.comment, Step.ok.injEq] at hr
     subst hr
     exact scopeOk_of_same h rfl rfl rfl rfl
   | pi target content sp =>
-    simp only [Builder.step] at hr
+    simp only [Builder.stepCore] at hr
     split at hr
     · cases hr
     simp only [Builder.processingInstruction, Step.ok.injEq] at hr
     subst hr
     exact scopeOk_of_same h rfl rfl rfl rfl
   | declaration v e s sp =>
-    simp only [Builder.step] at hr
+    simp only [Builder.stepCore] at hr
     split at hr
     · cases hr
     · simp only [Step.ok.injEq] at hr; subst hr; exact h
-  | dtdStart sp => simp [Builder.step] at hr
-  | dtdEnd sp => simp [Builder.step] at hr
-  | emptyDtd sp => simp [Builder.step] at hr
-  | entityDecl sp => simp [Builder.step] at hr
+  | dtdStart sp => simp [Builder.stepCore] at hr
+  | dtdEnd sp => simp [Builder.stepCore] at hr
+  | emptyDtd sp => simp [Builder.stepCore] at hr
+  | entityDecl sp => simp [Builder.stepCore] at hr
 
 /-- Every state the token loop reaches keeps the scope invariant. -/
 theorem run_scopeOk (ts : List Token) (lexErr : Option Nat) :
